@@ -8,5 +8,5 @@ CONSTANTS
   StartNrs = {0, 1}
   Shorts = {0, 1}
   NSeg = 5
-  Fixed = FALSE
+  Arith = "code"
 INVARIANT Emit
